@@ -249,7 +249,7 @@ func vBuildSync(N, R, K, opts int) *vSyncWorld {
 				pod.Name = fmt.Sprintf("other-%d", ord)
 				sp.member = false
 			case 2:
-				pod.Name = vSetName + "-x"
+				pod.Name = fmt.Sprintf("%s-x%d", vSetName, ord) // no trailing "-<digits>": not a member
 				sp.member = false
 			}
 		}
